@@ -941,3 +941,85 @@ impl Drop for TeardownGuard {
 thread_local! {
     static TEARDOWN: std::cell::RefCell<Option<TeardownGuard>> = const { std::cell::RefCell::new(None) };
 }
+
+
+/// Many threads, each a node of its own (its own key, its own record), updating at the same time
+/// for a while; after every successful update the record must carry its own key, the node id of
+/// that key, a verifying signature, and decode again.  One summary line; no model is involved.
+fn race_obs<S: Sch>(scheme: &str, out: &mut String) {
+    use std::sync::atomic::{AtomicUsize, Ordering};
+    const THREADS: usize = 12;
+    const ITERS: usize = 1200;
+    let bad = AtomicUsize::new(0);
+    let panics = AtomicUsize::new(0);
+    let done = AtomicUsize::new(0);
+    let barrier = std::sync::Barrier::new(THREADS);
+    std::thread::scope(|sc| {
+        for t in 0..THREADS {
+            let (bad, panics, done, barrier) = (&bad, &panics, &done, &barrier);
+            sc.spawn(move || {
+                let (secrets, _) = crate::gen_hist::case_keys(scheme, &mut Rng::new(7000 + t as u64));
+                let key = match S::from_secret(&secrets[0]) {
+                    Some(k) => k,
+                    None => return,
+                };
+                let mut e = match Enr::<S::K>::builder().udp4(1).build(&key) {
+                    Ok(e) => e,
+                    Err(_) => return,
+                };
+                barrier.wait();
+                for i in 0..ITERS {
+                    let r = crate::obs::guard(|| {
+                        let ok = match i % 4 {
+                            0 => e.set_udp4((i % 60000) as u16, &key).is_ok(),
+                            1 => e.set_tcp4((i % 60000) as u16, &key).is_ok(),
+                            2 => e.insert("x", &(i as u64), &key).is_ok(),
+                            _ => e.remove_key("x", &key).is_ok(),
+                        };
+                        if !ok {
+                            return true;
+                        }
+                        let own = e.public_key().encode().as_ref() == key.public().encode().as_ref();
+                        let nid = e.node_id() == enr::NodeId::from(key.public());
+                        let ver = e.verify();
+                        let dec = i % 16 != 0 || {
+                            let mut v = Vec::new();
+                            e.encode(&mut v);
+                            let mut b: &[u8] = &v;
+                            Enr::<S::K>::decode(&mut b).map(|d| d == e).unwrap_or(false)
+                        };
+                        own && nid && ver && dec
+                    });
+                    match r {
+                        None => {
+                            panics.fetch_add(1, Ordering::SeqCst);
+                        }
+                        Some(false) => {
+                            bad.fetch_add(1, Ordering::SeqCst);
+                        }
+                        Some(true) => {}
+                    }
+                    done.fetch_add(1, Ordering::SeqCst);
+                }
+            });
+        }
+    });
+    writeln!(
+        out,
+        "race scheme={scheme} threads={THREADS} updates={} bad={} panics={}",
+        done.load(Ordering::SeqCst),
+        bad.load(Ordering::SeqCst),
+        panics.load(Ordering::SeqCst)
+    )
+    .unwrap();
+}
+
+pub fn race_under(scheme: &str, out: &mut String) {
+    match scheme {
+        "k256" => race_obs::<SK256>(scheme, out),
+        "libsecp" => race_obs::<SLibsecp>(scheme, out),
+        "ed" => race_obs::<SEd>(scheme, out),
+        "comb" => race_obs::<SComb>(scheme, out),
+        _ => {}
+    }
+}
